@@ -20,7 +20,9 @@ var rules = map[string]ruleFn{
 	"C02": ruleC02,
 	"C03": ruleC03,
 	"C04": ruleC04,
+	"C07": ruleC07,
 	"C09": ruleC09,
+	"C12": ruleC12,
 	"C10": ruleC10,
 	"C05": ruleC05,
 	"C06": ruleC06,
